@@ -472,8 +472,10 @@ fn extract_case(env: &ExtractEnv, t: &mut Trace, case: u64, scn: &Value, rng: &m
     let archdir = env.base.join("arch");
     std::fs::create_dir_all(&archdir).unwrap();
 
-    let cls = scn["glob"]["cls"].as_str().unwrap().to_string();
-    let gk = scn["glob"]["k"].as_u64().unwrap() as usize;
+    // the request history: 1..3 patterns issued one after the other against the same archive (same `temp_dirs`)
+    let globs: Vec<(String, usize)> = scn["globs"].as_array().unwrap().iter()
+        .map(|g| (g["cls"].as_str().unwrap().to_string(), g["k"].as_u64().unwrap() as usize)).collect();
+    let cls = globs[0].0.clone();
     let mut members = Vec::new();
     for (i, m) in scn["members"].as_array().unwrap().iter().enumerate() {
         let comps: Vec<String> = serde_json::from_value(m["name"].clone()).unwrap();
@@ -494,13 +496,18 @@ fn extract_case(env: &ExtractEnv, t: &mut Trace, case: u64, scn: &Value, rng: &m
         if m.content.is_empty() && !m.dir { bump("member_empty"); }
         if m.pre { bump("member_target_preexists"); }
     }
-    bump(&format!("glob_{}", cls));
+    for g in &globs {
+        bump(&format!("glob_{}", g.0));
+    }
+    if globs.len() > 1 {
+        bump(&format!("history_of_{}_requests", globs.len()));
+    }
 
     // archive file (unique name: list_archive_contents_cached is keyed by the path); every 5th case as 2-3 volumes
     let multi = case % 5 == 4 && cls != "nofilter";
     let zip_path = archdir.join(format!("r{}c{}.zip", env.run_id, case));
     let mode = if cls == "nofilter" { "to_dir" } else { "archives" };
-    let hdr = json!({"members":hdr_members,"glob":scn["glob"],"mode":mode,"names":names,"multi_volume":multi});
+    let hdr = json!({"members":hdr_members,"globs":scn["globs"],"mode":mode,"names":names,"multi_volume":multi});
     if let Err(e) = write_zip(&zip_path, &members, &names, case) {
         // the zip writer refused the archive: nothing of adlt was observed, so no case is recorded (only counted)
         bump("zip_writer_refused");
@@ -550,80 +557,99 @@ fn extract_case(env: &ExtractEnv, t: &mut Trace, case: u64, scn: &Value, rng: &m
     walk(&sentinel, &mut f0, &mut d0);
 
     std::env::set_var("TMPDIR", &tdir);
-    let pattern = match cls.as_str() {
-        "all" => "**/*".to_string(),
-        "ext" => "*.dlt".to_string(),
-        "dirp" => "d/*".to_string(),
-        "exact" => names[gk - 1].clone(),
-        _ => String::new(),
-    };
-    let res = catch(std::panic::AssertUnwindSafe(|| {
-        if mode == "archives" {
-            let arg = if cls == "all" && case % 3 == 0 { open_name.display().to_string() } else { format!("{}!/{}", open_name.display(), pattern) };
-            let mut temp_dirs: Vec<(String, tempfile::TempDir)> = Vec::new();
-            let reported = extract_archives(arg, &mut temp_dirs, &env.cancel, &env.log);
-            (reported.into_iter().map(PathBuf::from).collect::<Vec<_>>(), temp_dirs.pop().map(|(_, d)| d), None)
-        } else {
-            let td = tempfile::TempDir::new().expect("tempdir");
-            let chain = SeekableChain::new(vec![std::fs::File::open(&open_name).expect("open zip")]);
-            match extract_to_dir(chain, td.path(), None, &HashMap::new(), &env.cancel) {
-                Ok(v) => (v.into_iter().map(|p| td.path().join(p)).collect::<Vec<_>>(), Some(td), None),
-                Err(e) => (vec![], Some(td), Some(e.to_string())),
+    // one temp dir list for the whole history: extract_archives keeps one temp dir per archive and reuses it
+    let mut temp_dirs: Vec<(String, tempfile::TempDir)> = Vec::new();
+    let mut own_td: Option<tempfile::TempDir> = None;
+    for (ri, (gcls, gk)) in globs.iter().enumerate() {
+        let pattern = match gcls.as_str() {
+            "all" => "**/*".to_string(),
+            "ext" => "*.dlt".to_string(),
+            "dirp" => "d/*".to_string(),
+            "exact" => names[*gk - 1].clone(),
+            _ => String::new(),
+        };
+        let existing_before = temp_dirs.first().map(|(_, d)| {
+            let (mut f, mut d2) = (Vec::new(), Vec::new());
+            walk(d.path(), &mut f, &mut d2);
+            f.len()
+        }).unwrap_or(0);
+        let res = catch(std::panic::AssertUnwindSafe(|| {
+            if mode == "archives" {
+                let arg = if gcls == "all" && (case + ri as u64) % 3 == 0 { open_name.display().to_string() } else { format!("{}!/{}", open_name.display(), pattern) };
+                let reported = extract_archives(arg, &mut temp_dirs, &env.cancel, &env.log);
+                (reported.into_iter().map(PathBuf::from).collect::<Vec<_>>(), None)
+            } else {
+                let td = tempfile::TempDir::new().expect("tempdir");
+                let chain = SeekableChain::new(vec![std::fs::File::open(&open_name).expect("open zip")]);
+                let r = match extract_to_dir(chain, td.path(), None, &HashMap::new(), &env.cancel) {
+                    Ok(v) => (v.into_iter().map(|p| td.path().join(p)).collect::<Vec<_>>(), None),
+                    Err(e) => (vec![], Some(e.to_string())),
+                };
+                own_td = Some(td);
+                r
             }
-        }
-    }));
-    match res {
-        Err(msg) => t.ev(json!({"ev":"panic","msg":msg})),
-        Ok((reported, tempdir, err)) => {
-            let tpath: PathBuf = tempdir.as_ref().map(|d| d.path().to_path_buf()).unwrap_or_else(|| virtual_tmp.clone());
-            let tcanon = std::fs::canonicalize(&tpath).unwrap_or_else(|_| tpath.clone());
-            let mut rep = Vec::new();
-            for p in &reported {
-                let ps = p.to_string_lossy().to_string();
-                let m = names.iter().position(|n| tpath.join(n).to_string_lossy() == ps).map(|i| i + 1).unwrap_or(0);
-                let canon = std::fs::canonicalize(p).unwrap_or_else(|_| lexical(Path::new("/"), &ps));
-                let inside = canon.starts_with(&tcanon) && canon != tcanon;
-                let data = std::fs::read(p).ok();
-                rep.push(json!({"m":m,"inside":inside,"rel": if inside { rel_comps(&canon, &tcanon) } else { vec![] },
-                    "exists": data.is_some() && p.is_file(), "len": data.as_ref().map(|d| d.len()).unwrap_or(0),
-                    "hash": data.as_ref().map(|d| hash31(d)).unwrap_or(0), "path": ps}));
-                if !inside { bump("reported_outside"); }
+        }));
+        match res {
+            Err(msg) => {
+                t.ev(json!({"ev":"panic","msg":msg}));
+                break;
             }
-            let (mut tf, mut tdd) = (Vec::new(), Vec::new());
-            if tempdir.is_some() {
-                walk(&tpath, &mut tf, &mut tdd);
-            }
-            tf.sort();
-            let tree: Vec<Value> = tf
-                .iter()
-                .map(|p| {
-                    let d = std::fs::read(p).unwrap_or_default();
-                    json!({"rel":rel_comps(p, &tpath),"len":d.len(),"hash":hash31(&d)})
-                })
-                .collect();
-            if !tree.is_empty() { bump("extracted_something"); }
-            let (mut f1, mut d1) = (Vec::new(), Vec::new());
-            walk(&sentinel, &mut f1, &mut d1);
-            let mut created: Vec<String> = Vec::new();
-            for p in f1.iter().chain(d1.iter()) {
-                if p.starts_with(&tpath) {
-                    continue;
+            Ok((reported, err)) => {
+                let tempdir: Option<&tempfile::TempDir> = if mode == "archives" { temp_dirs.first().map(|(_, d)| d) } else { own_td.as_ref() };
+                let tpath: PathBuf = tempdir.map(|d| d.path().to_path_buf()).unwrap_or_else(|| virtual_tmp.clone());
+                let tcanon = std::fs::canonicalize(&tpath).unwrap_or_else(|_| tpath.clone());
+                let mut rep = Vec::new();
+                for p in &reported {
+                    let ps = p.to_string_lossy().to_string();
+                    let m = names.iter().position(|n| tpath.join(n).to_string_lossy() == ps).map(|i| i + 1).unwrap_or(0);
+                    let canon = std::fs::canonicalize(p).unwrap_or_else(|_| lexical(Path::new("/"), &ps));
+                    let inside = canon.starts_with(&tcanon) && canon != tcanon;
+                    let data = std::fs::read(p).ok();
+                    rep.push(json!({"m":m,"inside":inside,"rel": if inside { rel_comps(&canon, &tcanon) } else { vec![] },
+                        "exists": data.is_some() && p.is_file(), "len": data.as_ref().map(|d| d.len()).unwrap_or(0),
+                        "hash": data.as_ref().map(|d| hash31(d)).unwrap_or(0), "path": ps}));
+                    if !inside { bump("reported_outside"); }
                 }
-                if !f0.contains(p) && !d0.contains(p) {
-                    created.push(p.strip_prefix(&sentinel).unwrap().display().to_string());
+                let (mut tf, mut tdd) = (Vec::new(), Vec::new());
+                if tempdir.is_some() {
+                    walk(&tpath, &mut tf, &mut tdd);
                 }
-            }
-            created.sort();
-            let mut changed = false;
-            for (p, c) in &pre_files {
-                if std::fs::read(p).ok().as_ref() != Some(c) {
-                    changed = true;
+                tf.sort();
+                let tree: Vec<Value> = tf
+                    .iter()
+                    .map(|p| {
+                        let d = std::fs::read(p).unwrap_or_default();
+                        json!({"rel":rel_comps(p, &tpath),"len":d.len(),"hash":hash31(&d)})
+                    })
+                    .collect();
+                if !tree.is_empty() { bump("extracted_something"); }
+                if ri > 0 && existing_before > 0 && tf.len() > existing_before { bump("later_request_found_files_and_added_more"); }
+                if ri > 0 && existing_before > 0 && tf.len() == existing_before && !reported.is_empty() { bump("later_request_served_from_temp_dir"); }
+                let (mut f1, mut d1) = (Vec::new(), Vec::new());
+                walk(&sentinel, &mut f1, &mut d1);
+                let mut created: Vec<String> = Vec::new();
+                for p in f1.iter().chain(d1.iter()) {
+                    if p.starts_with(&tpath) {
+                        continue;
+                    }
+                    if !f0.contains(p) && !d0.contains(p) {
+                        created.push(p.strip_prefix(&sentinel).unwrap().display().to_string());
+                    }
                 }
+                created.sort();
+                let mut changed = false;
+                for (p, c) in &pre_files {
+                    if std::fs::read(p).ok().as_ref() != Some(c) {
+                        changed = true;
+                    }
+                }
+                t.ev(json!({"ev":"result","req":ri + 1,"reported":rep,"tree":tree,"outside_created":created,"outside_changed":changed,
+                    "err":err.unwrap_or_default(),"temp_dirs":temp_dirs.len()}));
             }
-            t.ev(json!({"ev":"result","reported":rep,"tree":tree,"outside_created":created,"outside_changed":changed,"err":err.unwrap_or_default()}));
-            drop(tempdir);
         }
     }
+    drop(temp_dirs);
+    drop(own_td);
     let _ = std::fs::remove_file(&zip_path);
     for p in vol_paths {
         let _ = std::fs::remove_file(p);
